@@ -67,8 +67,9 @@ type vpClose struct {
 }
 
 type vpWorld struct {
-	mu    sync.Mutex
-	rng   *rand.Rand
+	mu     sync.Mutex
+	failMu sync.Mutex
+	rng    *rand.Rand
 	regs  []*vpReg
 	coll  *collection
 	prov  Provider
@@ -102,11 +103,14 @@ type vpWorld struct {
 	handed      map[*vpBase]string  // transient instances already handed out
 	buildDone   bool
 	provClosed  bool
+	hung        bool
 	fails       []string
 }
 
 func (w *vpWorld) fail(props, format string, a ...any) {
+	w.failMu.Lock()
 	w.fails = append(w.fails, props+"\x00"+fmt.Sprintf(format, a...))
+	w.failMu.Unlock()
 }
 
 // ---------------------------------------------------------------- ids
@@ -674,7 +678,11 @@ func (r *vpRun) emit(op, obs string) {
 	r.cur = append(r.cur, op)
 	r.nline++
 	// drain monitor failures raised while executing this op
-	for _, f := range r.w.fails {
+	r.w.failMu.Lock()
+	fails := r.w.fails
+	r.w.fails = nil
+	r.w.failMu.Unlock()
+	for _, f := range fails {
 		parts := strings.SplitN(f, "\x00", 2)
 		r.monBad++
 		r.stats["monitor_fail:"+parts[0]]++
@@ -683,7 +691,6 @@ func (r *vpRun) emit(op, obs string) {
 			fmt.Fprintf(r.mon, "  %s\n", l)
 		}
 	}
-	r.w.fails = nil
 }
 
 func (r *vpRun) newWorld(rng *rand.Rand) *vpWorld {
@@ -783,21 +790,41 @@ func (r *vpRun) register(w *vpWorld) {
 	}
 }
 
+// guard runs one API call with a recover (C15: no panic may escape) and a watchdog (C09/C13: no hang).
+// After a hang the scenario is abandoned: the stuck goroutine still owns the world.
 func guard(w *vpWorld, what string, f func()) (panicked bool) {
-	defer func() {
-		if p := recover(); p != nil {
-			panicked = true
-			w.fail("C15,C09", "%s panicked: %v", what, p)
-		}
+	done := make(chan bool, 1)
+	go func() {
+		defer func() {
+			if p := recover(); p != nil {
+				w.fail("C15,C09,C13", "%s panicked: %v", what, p)
+				done <- true
+				return
+			}
+			done <- false
+		}()
+		f()
 	}()
-	f()
-	return false
+	select {
+	case panicked = <-done:
+		return panicked
+	case <-time.After(vpHangTimeout):
+		w.hung = true
+		w.fail("C09,C12,C13", "%s did not return within %v (deadlock or lost wake-up)", what, vpHangTimeout)
+		return true
+	}
 }
+
+var vpHangTimeout = 20 * time.Second
 
 func (r *vpRun) build(w *vpWorld) bool {
 	var err error
 	var prov Provider
 	guard(w, "Build", func() { prov, err = w.coll.Build() })
+	if w.hung {
+		r.emit("p build", "hang")
+		return false
+	}
 	// the creation order: Kahn's output as captured inside the first constructor call; if no
 	// constructor ran, the order in which the (instance-valued) singletons were stored
 	order := w.topo
@@ -862,6 +889,10 @@ func (r *vpRun) createScope(w *vpWorld, from int, ctx int) {
 	var err error
 	guard(w, "CreateScope", func() { sc, err = t.CreateScope(c) })
 	op := fmt.Sprintf("p scope %s %d", name, ctx)
+	if w.hung {
+		r.emit(op, "hang")
+		return
+	}
 	if err != nil {
 		r.emit(op, w.showErr(err)+w.flushEvents())
 		return
@@ -905,7 +936,7 @@ func (r *vpRun) get(w *vpWorld, s int, t reflect.Type, name string) {
 			v, err = tg.GetKeyed(t, name)
 		}
 	}) {
-		r.emit(op, "panic"+w.flushEvents())
+		r.emit(op, map[bool]string{true: "hang", false: "panic"}[w.hung]+w.flushEvents())
 		return
 	}
 	if err != nil {
@@ -937,7 +968,7 @@ func (r *vpRun) getGroup(w *vpWorld, s int, t reflect.Type, group string) {
 	var err error
 	op := fmt.Sprintf("p getg %s %d %d", tn, w.typeID(t), w.grpID(group))
 	if guard(w, "GetGroup", func() { v, err = tg.GetGroup(t, group) }) {
-		r.emit(op, "panic"+w.flushEvents())
+		r.emit(op, map[bool]string{true: "hang", false: "panic"}[w.hung]+w.flushEvents())
 		return
 	}
 	if err != nil {
@@ -988,6 +1019,10 @@ func (r *vpRun) closeScope(w *vpWorld, s int, parentOf map[int]int) {
 	sc := w.scopes[s]
 	var err error
 	guard(w, "Scope.Close", func() { err = sc.Close() })
+	if w.hung {
+		r.emit(fmt.Sprintf("p close s%d", s), "hang")
+		return
+	}
 	obs := "ok"
 	if err != nil {
 		obs = w.showErr(err)
@@ -1062,6 +1097,10 @@ func (w *vpWorld) monitorCloseOrder(what string) {
 func (r *vpRun) closeProvider(w *vpWorld, parentOf map[int]int) {
 	var err error
 	guard(w, "Provider.Close", func() { err = w.prov.Close() })
+	if w.hung {
+		r.emit("p close P", "hang")
+		return
+	}
 	obs := "ok"
 	if err != nil {
 		obs = w.showErr(err)
@@ -1472,6 +1511,9 @@ func (r *vpRun) scenario(rng *rand.Rand, o vpGenOpts) {
 		return cands[rng.Intn(len(cands))]
 	}
 	for op := 0; op < nops; op++ {
+		if w.hung {
+			return
+		}
 		switch c := rng.Intn(20); {
 		case c < 4: // create scope
 			from := pickScope(rng.Intn(10) == 0)
@@ -1548,8 +1590,11 @@ func (r *vpRun) scenario(rng *rand.Rand, o vpGenOpts) {
 			}
 		}
 	}
+	if w.hung {
+		return
+	}
 	r.closeProvider(w, parentOf)
-	if rng.Intn(3) == 0 {
+	if !w.hung && rng.Intn(3) == 0 {
 		r.closeProvider(w, parentOf)
 	}
 	for _, cancel := range w.cancels {
@@ -1590,6 +1635,12 @@ func TestVerifCore(t *testing.T) {
 		rng := rand.New(rand.NewSource(seed*1000003 + int64(it)))
 		o := vpGenOpts{n: 2 + rng.Intn(7), forms: it%2 == 1, faults: it%3 == 2, defects: it%5 == 4}
 		r.scenario(rng, o)
+		if r.w != nil && r.w.hung {
+			r.stats["hangs"]++
+			if r.stats["hangs"] >= 3 { // every hang costs the watchdog's timeout: three witnesses are enough
+				break
+			}
+		}
 	}
 	wo.Flush()
 	wb.Flush()
